@@ -782,6 +782,13 @@ class EChaos(Engine):
                 if e_ is not None:
                     st, r, label = 'exc', e_, label + '|drained'
             incs = self._monitor(before, label, st, r, used, ev)
+            if st == 'ok' and kernel.is_bits(r) and not any(r is o for o in self.objs):
+                # an object the call handed back is an involved object too: it can be looked at like any other
+                st2, v2 = call(lambda: (len(r.bin) == len(r), repr(r), (0 <= r.pos <= len(r)) if kernel.is_stream(r) else True))
+                if st2 != 'ok' or not (v2[0] and v2[2]):
+                    incs.append(self.inc(f'{label}|{"lsb0" if self.opts[0] else "msb0"}|returned-invalid-object', event=ev,
+                                         problem=kernel.canon(v2) if st2 != 'ok' else 'len/pos'))
+                self.probe('returned_object_checked')
             self._trim()
             self.state(cname, 'lsb0' if self.opts[0] else 'msb0', self.opts[1], min(len(kernel.safe_bin(x)) // 16, 5) if kernel.is_bits(x) else -1, len(self.gens) > 0)
             self.transition(label, st, kernel.exc_name(r) if st == 'exc' else None)
